@@ -6,7 +6,8 @@ LEVEL = "model_checking"
 
 def run(ctx):
   return _shared.run_clauses(ctx, "C05.", lambda e: e['tag'] == 'rebuild',
-                             "every 5th bundle of every history a fresh engine loads the same metadata and data columns only and recalculates from scratch; clause C05.same: all projected cells (formula columns included) equal those of the incrementally maintained engine; formulas of the shared corpus are clean (no volatile or side-effecting functions)")
+                             "every 5th bundle of every history a fresh engine loads the same metadata and data columns only and recalculates from scratch; clause C05.same: all projected cells (formula columns included) equal those of the incrementally maintained engine; formulas of the shared corpus are clean (no volatile or side-effecting functions)",
+                             corpora=_shared.BOTH)
 
 
 def replay(ctx, data):
